@@ -814,6 +814,157 @@ def fn_stmt_of(b, node):
     return best
 
 
+ERR_ADAPTORS = ("context", "with_context", "map_err", "inspect_err")      # Result -> Result, an Err stays an Err
+
+
+def completes_only_with_err(e):
+    """Every way `e` can finish is an error: it leaves the function through `return Err(..)` / bail! / `Err(..)?`, or its value is
+    `Err(..)` (possibly behind blocks, if/else, match arms and context adaptors).  -> "exit" | "value" | "mixed" | None."""
+    e = H.peel(e, refs=False)
+    k = e.get("k")
+    if H.diverges(e):
+        rets = [x for x in H.walk(e, into_closures=False) if x.get("k") == "ret"]
+        tries = [x for x in H.walk(e, into_closures=False) if x.get("k") == "try"]
+        if rets and all(H.is_err_exit(x) for x in rets):
+            return "exit"
+        if not rets and tries and e.get("k") == "try" and completes_only_with_err(e["e"]) == "value":
+            return "exit"       # `Err(..)?`
+        return None
+    if k == "block":
+        if any(x.get("k") == "ret" and not H.is_err_exit(x) for x in H.walk(e, into_closures=False)):
+            return None
+        return completes_only_with_err(e["tail"]) if "tail" in e else None
+    if k == "call":
+        c = H.ctor_of(e)
+        return "value" if c and c[1] == "Err" else None
+    if k == "mcall" and e["name"] in ERR_ADAPTORS:
+        return completes_only_with_err(e["recv"])
+    if k == "try":
+        return "exit" if completes_only_with_err(e["e"]) == "value" else None
+    if k in ("if", "match"):
+        alts = ([e["then"]] + ([e["else"]] if "else" in e else [None])) if k == "if" else [a["body"] for a in e["arms"]]
+        rs = [completes_only_with_err(a) if a is not None else None for a in alts]
+        if not rs or any(r is None for r in rs):
+            return None
+        return rs[0] if len(set(rs)) == 1 else "mixed"
+    return None
+
+
+def value_is_fn_result(fn, node):
+    """The value of `node` is what the function returns: it sits in tail position / under `return` / under `?` (an Err leaves the
+    function) / behind a context adaptor, or is bound to a local that is the function's result in the same way."""
+    cur = node
+    for _ in range(40):
+        par = fn.parent.get(id(cur))
+        if par is None:
+            return cur is fn.root
+        k = par.get("k")
+        if k == "block":
+            if par.get("tail") is not cur:
+                return False
+        elif k in ("ret", "try"):
+            if k == "ret":
+                return True
+            # Err(..)? leaves the function; the Ok side goes on, which is fine for "an Err becomes the result"
+            return True
+        elif k == "mcall" and par["name"] in ERR_ADAPTORS and par["recv"] is cur:
+            pass
+        elif k in ("if", "match"):
+            if k == "if" and par.get("cond") is cur:
+                return False
+            if k == "match" and par.get("scrut") is cur:
+                return False
+        elif k == "let" and par.get("init") is cur and par["pat"].get("k") == "bind" and "els" not in par:
+            lid = par["pat"]["id"]
+            uses = [x for x in H.walk(fn.root) if x.get("k") == "path" and (x.get("res") or {}).get("r") == "local" and x["res"].get("id") == lid]
+            return len(uses) == 1 and value_is_fn_result(fn, uses[0])
+        elif k in ("semi",):
+            return False
+        elif k == "closure":
+            return False
+        else:
+            return False
+        cur = par
+    return False
+
+
+def entry_dispatches(b):
+    """Two-way decisions on an `Entry` value in a function, as (real node, match-shaped view): a `match`, an
+    `if let P = <entry> { A } else { B }` (arms P => A, _ => B; without `else` and with a diverging A, B is what follows the `if`
+    in its block) or a `let P = <entry> else { B };` (arms P => <what follows>, _ => B).  The view has `scrut` and `arms` like a
+    match node and `result_of`: the node whose value the arm values become."""
+    out = []
+    for n in H.walk(b["body"]):
+        k = n.get("k")
+        if k == "match" and "Entry" in (n["scrut"].get("ty") or ""):
+            out.append((n, n))
+        elif k == "if":
+            c = H.peel(n["cond"], refs=False)
+            if c.get("k") == "letexpr" and "Entry" in (H.peel(c["init"], refs=False).get("ty") or ""):
+                other = n["else"] if "else" in n else {"k": "block", "stmts": [], "ty": "()", "sp": n.get("sp")}
+                holder = n
+                if "else" not in n and H.diverges(n["then"]):
+                    chain = H.parents_of(b["body"], n) or []
+                    st = n
+                    while chain and chain[-1].get("k") == "semi":
+                        st = chain.pop()
+                    blk = chain[-1] if chain and chain[-1].get("k") == "block" else None
+                    if blk is not None and any(x is st for x in blk["stmts"]):
+                        i = [j for j, x in enumerate(blk["stmts"]) if x is st][0]
+                        other = {"k": "block", "stmts": blk["stmts"][i + 1:], "ty": blk.get("ty"), "sp": blk.get("sp")}
+                        if "tail" in blk:
+                            other["tail"] = blk["tail"]
+                        holder = blk
+                out.append((n, {"k": "match", "scrut": c["init"], "sp": n.get("sp"), "ty": n.get("ty"), "result_of": holder,
+                                "arms": [{"pat": c["pat"], "body": n["then"], "sp": n["then"].get("sp")},
+                                         {"pat": {"k": "wild"}, "body": other, "sp": other.get("sp")}]}))
+        elif k == "let" and "els" in n and "init" in n and "Entry" in (H.peel(n["init"], refs=False).get("ty") or ""):
+            out.append((n, {"k": "match", "scrut": n["init"], "sp": n.get("sp"), "ty": "()",
+                            "arms": [{"pat": n["pat"], "body": {"k": "block", "stmts": [], "ty": "()", "sp": n.get("sp")}, "sp": n.get("sp")},
+                                     {"pat": {"k": "wild"}, "body": n["els"], "sp": n["els"].get("sp")}]}))
+    return out
+
+
+def through_local(fn, e):
+    """`e`, or the initialiser of the `let` it names (`let entry = map.entry(key); match entry { .. }`)."""
+    for _ in range(4):
+        e = H.peel(e)
+        loc = H.local_of(e) if e.get("k") == "path" else None
+        b = fn.binds.get(loc[0]) if loc else None
+        if b is not None and b.origin[0] == "let" and not b.path and "init" in b.origin[1]:
+            e = b.origin[1]["init"]
+            continue
+        break
+    return e
+
+
+def returned_in_ok(fn, node):
+    """`node`'s value is handed back as `Ok(node)` that is the function result (directly, or through a local)."""
+    cur = node
+    for _ in range(10):
+        par = fn.parent.get(id(cur))
+        if par is None:
+            return False
+        k = par.get("k")
+        if k == "call" and H.ctor_of(par) and H.ctor_of(par)[1] == "Ok":
+            return value_is_fn_result(fn, par)
+        if k == "block" and par.get("tail") is cur:
+            cur = par
+            continue
+        if k == "ref":
+            cur = par
+            continue
+        if k == "let" and par.get("init") is cur and par["pat"].get("k") == "bind" and "els" not in par:
+            lid = par["pat"]["id"]
+            uses = [x for x in H.walk(fn.root) if x.get("k") == "path" and (x.get("res") or {}).get("r") == "local" and x["res"].get("id") == lid]
+            if len(uses) != 1:
+                return False
+            cur = uses[0]
+            continue
+        return False
+    return False
+
+
 INS = ("insert", "insert_entry", "or_insert", "or_insert_with", "or_insert_with_key", "or_default", "insert_full", "extend", "push",
        "shift_insert", "insert_sorted", "insert_before")
 
@@ -823,15 +974,15 @@ def entry_table(q, R, label, b, map_fields, anchor):
     with Occupied => Err (no insertion) and Vacant => the one insertion, returned in Ok.  `<map>` is parameter 0 followed by the
     field hops `map_fields` ([] for add_child(map, child); [("f", Adt, field)] for a method that works on self.<field>).
     Emits `<label>:key|Occupied|Vacant|no-other-insert`; -> all hold.  With anchor=False a missing `match` is just False."""
-    ms = [n for n in H.walk(b["body"]) if n.get("k") == "match" and "Entry" in (n["scrut"].get("ty") or "")]
+    ms = entry_dispatches(b)
     if anchor:
         if not R.anchor("R03.6", "match map.entry(key) in %s" % label, len(ms) == 1, sp=b["sp"]):
             return False
     elif len(ms) != 1:
         return False
-    m = ms[0]
+    m_real, m = ms[0]
     fn = U.Fn(q, b)
-    sc = H.peel(m["scrut"])
+    sc = through_local(fn, m["scrut"])
     pids = H.param_ids(b)
     results = []
     ok_scrut = False
@@ -862,10 +1013,15 @@ def entry_table(q, R, label, b, map_fields, anchor):
     if "Occupied" in arms:
         arm = arms["Occupied"][1]
         ins = [n for n in H.walk(arm["body"]) if n.get("k") == "mcall" and n["name"] in INS]
-        ok = (H.is_err_exit(arm["body"]) or any(H.is_err_exit(x) for x in H.walk(arm["body"]) if x.get("k") == "ret")) \
-            and H.diverges(arm["body"]) and not ins
+        # the arm finishes only with an error: by leaving the function (bail!/return Err/Err(..)?) or by having the value Err(..)
+        # while the match value is the function result (tail, return, `?`, context adaptors, a local returned afterwards)
+        how = completes_only_with_err(arm["body"])
+        holder = m.get("result_of", m_real)
+        ok = (how == "exit" or (how in ("value", "mixed") and value_is_fn_result(fn, holder))) and not ins
         results.append(bool(ok))
-        R.inst("R03.6", "%s:Occupied" % label, ok, sp=arm["body"].get("sp"), expect="Err(key already exists), no insertion", got=H.render(arm["body"])[:100])
+        R.inst("R03.6", "%s:Occupied" % label, ok, sp=arm["body"].get("sp"), expect="Err(key already exists), no insertion",
+               got={"arm": H.render(arm["body"])[:100], "finishes with": how, "match value is the function result": value_is_fn_result(fn, holder),
+                    "insertions": [H.render(x)[:60] for x in ins]})
     else:
         results.append(False)
         R.inst("R03.6", "%s:Occupied" % label, False, sp=m.get("sp"), detail="no decidable arm for Entry::Occupied")
@@ -884,11 +1040,10 @@ def entry_table(q, R, label, b, map_fields, anchor):
         child = ins["name"] == "insert" and len(ins["args"]) == 1 and H.local_of(ins["args"][0]) and H.local_of(ins["args"][0])[0] == pids[1]
         inside = any(x is ins for x in H.walk(arm["body"]))
         others_diverge = all(H.diverges(a["body"]) for a in m["arms"] if a is not arm)
-        in_match = any(x is ins for x in H.walk(m))
+        in_match = any(x is ins for x in H.walk(m_real)) and m_real.get("k") != "let"
         reached_only = inside or (not in_match and others_diverge)
         # returned: Ok(<insert>) is the function result (tail / return), possibly through the match value
-        par = fn.parent.get(id(ins))
-        wrapped = par is not None and par.get("k") == "call" and H.ctor_of(par) and H.ctor_of(par)[1] == "Ok"
+        wrapped = returned_in_ok(fn, ins)
         okv = bool(from_vacant and child and reached_only and wrapped)
         if not okv:
             got = {"receiver": got, "from_vacant": from_vacant, "child": bool(child), "reached_only_for_vacant": reached_only, "Ok(..)": bool(wrapped)}
@@ -931,7 +1086,7 @@ def r03_6(q, R, cx):
                 # the function inserts into its map itself: it is its own duplicate-key policy and must show the entry table
                 shown = "; ".join(H.render(fn_stmt_of(b, d[0]))[:90] for d in direct)
                 tbl = len(direct) == 1 and entry_table(q, R, name, b, map_fields=[("f",) + mp], anchor=False)
-                has_match = any(n.get("k") == "match" and "Entry" in (n["scrut"].get("ty") or "") for n in H.walk(b["body"]))
+                has_match = bool(entry_dispatches(b))
                 R.inst("R03.6", "delegate:%s" % name, bool(tbl) and tgt == mp and own, sp=direct[0][0].get("sp"),
                        expect=expect + "  (or the same table inline: match self.%s.entry(child key) { Occupied => Err, Vacant => insert(child) })" % mp[1],
                        got="%s bypasses add_child and inserts into %s.%s itself: %s%s" % (
